@@ -149,8 +149,14 @@ async fn h_body_dup(_: Rq, _p: Path<DynPath>, _b: TypedBody<dup_b::Dup>) -> Resu
 const N_KINDS: u8 = 11;
 
 fn make_zoo_endpoint(e: &MEndpoint, kind: u8, tags: &[String], deprecated: bool) -> ApiEndpoint<DynCtx> {
-    // sets the thread-local path spec
-    let _ = make_endpoint(e, &default_path_spec(e), None, &[]);
+    // sets the thread-local path spec; every other kind value gives the path variables a *named*
+    // type (a $ref to a schema that nothing else in the document mentions)
+    let spec: ParamSpec = if (kind / N_KINDS) % 2 == 1 {
+        e.var_names().into_iter().map(|(n, wild)| (n, if wild { PKind::StrArray } else { PKind::RefScalar })).collect()
+    } else {
+        default_path_spec(e)
+    };
+    let _ = make_endpoint(e, &spec, None, &[]);
     let m = method_of(&e.method);
     let ct = "application/json";
     let t = e.template();
@@ -190,7 +196,7 @@ struct DocCase {
 fn doc_case_strategy() -> impl Strategy<Value = DocCase> {
     (
         table_strategy(3),
-        proptest::collection::vec(0u8..N_KINDS, 24),
+        proptest::collection::vec(0u8..(2 * N_KINDS), 24),
         proptest::collection::vec(0u8..8, 24),
         any::<bool>(),
         [
